@@ -76,6 +76,12 @@ structure Field where
   sub : List Field := []
 deriving Repr, Inhabited
 
+/-- `Message.IsEmpty` of an optional nested message -/
+def isEmptyMsg (msg : Option MsgInfo) : Bool :=
+  match msg with
+  | some m => m.isEmpty
+  | none => false
+
 structure Msg where
   info : MsgInfo
   fields : List Field
